@@ -97,6 +97,7 @@ Record codec := {
   cd_pascal_prefix : nat;                (* write_u32(encoded.len()) *)
   (* defect switches: true = the repaired behaviour *)
   cd_bs_checked : bool;                  (* string_from_attrs rejects bs=0 *)
+  cd_nulless_furibug_rejected : bool;    (* string_from_attrs rejects nulless together with furibug *)
   cd_place_with_padding : bool;          (* IntrinsicBuilder::into_vec allocates for indices that count padding *)
   cd_match_skips_padding : bool          (* call arguments are matched against non-defaulted parameters only *)
 }.
@@ -158,9 +159,9 @@ Definition enc_of_param (cd : codec) (p : sparam) : option enc :=
   | PTime => Some ETime
   | PPad c => match zassoc c (cd_pad_chars cd) with Some s => Some (EPad s) | None => None end
   | PStr sz m v a f =>
-      match bs_of sz with
-      | Some bs => if cd_bs_checked cd && (bs =? 0) then None else Some (EStr sz m v a f)
-      | None => Some (EStr sz m v a f)
+      match sz with
+      | SBlock bs | SPascal bs => if cd_bs_checked cd && (bs =? 0) then None else Some (EStr sz m v a f)
+      | SFixed _ nulless => if cd_nulless_furibug_rejected cd && nulless && f then None else Some (EStr sz m v a f)
       end
   end.
 
